@@ -150,7 +150,7 @@ func c14NoAmbient(r *an.Run) {
 						}
 					}
 					for _, c := range an.Calls(f) {
-						if strings.HasPrefix(an.CalleeName(c), "sort.") && l.Header.Dominates(c.Block()) && !l.Blocks[c.Block()] {
+						if isSortCall(c) && l.Header.Dominates(c.Block()) && !l.Blocks[c.Block()] {
 							sorted = true
 						}
 					}
@@ -199,7 +199,7 @@ func c14FixedOrder(r *an.Run, rule string) {
 	}
 	r.Check(n == 1, short(f)+"|dedupe", f.Pos(), "one de-duplication map (found %d updates)", n)
 	// sort.Slice with a less comparing .Absolute with <
-	sorts := callsToGroup(f, "sort.Slice", "sort.SliceStable")
+	sorts := callsToGroup(f, "sort.Slice", "sort.SliceStable", "slices.SortFunc", "slices.SortStableFunc")
 	if r.Check(len(sorts) == 1, short(f)+"|sorted", f.Pos(), "the result is sorted (found %d sort call(s))", len(sorts)) {
 		var less *ssa.Function
 		switch v := sorts[0].Common().Args[1].(type) {
@@ -213,6 +213,11 @@ func c14FixedOrder(r *an.Run, rule string) {
 			for _, ret := range an.Returns(less) {
 				if cmp, ok := ret.Results[0].(*ssa.BinOp); ok && (cmp.Op == token.LSS || cmp.Op == token.GTR) &&
 					loadedField(cmp.X) == "Absolute" && loadedField(cmp.Y) == "Absolute" {
+					good = true
+				}
+				// the three-way form of slices.SortFunc: strings.Compare / cmp.Compare of the two paths
+				if c, ok := ret.Results[0].(*ssa.Call); ok && an.IsCallTo(c, "strings.Compare", "cmp.Compare") && len(c.Call.Args) == 2 &&
+					loadedField(c.Call.Args[0]) == "Absolute" && loadedField(c.Call.Args[1]) == "Absolute" && an.Root(c.Call.Args[0]) != an.Root(c.Call.Args[1]) {
 					good = true
 				}
 			}
